@@ -3,24 +3,24 @@ import importlib
 
 # property -> list of (rule module, configs it needs in quick tier)
 PROPERTY_RULES = {
-    "C01": ["r_a10", "r_a9", "r_a8", "r_a2", "r_o3", "r_a12", "r_a13", "r_a4", "r_a16", "r_a17", "r_a19", "r_a18", "r_a20", "r_a21"],
-    "C02": ["r_a6", "r_a4", "r_a8", "r_a2", "r_o3", "r_e1", "r_b1", "r_a13", "r_a14", "r_a16", "r_a17", "r_a18", "r_a9", "r_c6", "r_a20", "r_a21"],
-    "C03": ["r_a2", "r_a3", "r_a8", "r_a14", "r_b1"],
-    "C04": ["r_a8", "r_e1", "r_a6", "r_a2", "r_b1", "r_o3", "r_a4", "r_a17", "r_a18", "r_a21"],
+    "C01": ["r_a10", "r_a9", "r_a8", "r_a2", "r_o3", "r_a12", "r_a13", "r_a4", "r_a16", "r_a17", "r_a19", "r_a18", "r_a20", "r_a21", "r_a23"],
+    "C02": ["r_a6", "r_a4", "r_a8", "r_a2", "r_o3", "r_e1", "r_b1", "r_a13", "r_a14", "r_a16", "r_a17", "r_a18", "r_a9", "r_c6", "r_a20", "r_a21", "r_a23"],
+    "C03": ["r_a2", "r_a3", "r_a8", "r_a14", "r_b1", "r_a17", "r_a4"],
+    "C04": ["r_a8", "r_e1", "r_a6", "r_a2", "r_b1", "r_o3", "r_a4", "r_a17", "r_a18", "r_a21", "r_a23"],
     "C05": ["r_b1", "r_o3", "r_a2", "r_a12"],
     "C06": ["r_b1", "r_o3", "r_a2"],
     "C07": ["r_a12", "r_a13", "r_a2", "r_a9", "r_a11", "r_a8"],
     "C08": ["r_a11", "r_o3", "r_a2", "r_a4", "r_a8", "r_a12", "r_e2", "r_a15", "r_a22"],
     "C09": ["r_c4", "r_c3", "r_c1", "r_c5", "r_c7", "r_c8", "r_c9"],
     "C10": ["r_c2", "r_c1", "r_e1", "r_c5", "r_c7", "r_c8", "r_c4", "r_c3", "r_c9"],
-    "C11": ["r_c2", "r_c1", "r_a6", "r_c5", "r_c4", "r_e1", "r_a8", "r_a9", "r_a16", "r_a21", "r_c9"],
+    "C11": ["r_c2", "r_c1", "r_a6", "r_c5", "r_c4", "r_e1", "r_a8", "r_a9", "r_a16", "r_a21", "r_c9", "r_a23"],
     "C12": ["r_c4", "r_e1", "r_c9"],
     "C13": ["r_e4", "r_a6", "r_c3", "r_e1", "r_a13", "r_a16", "r_c7", "r_a8", "r_a20"],
     "C14": ["r_d1"],
     "C15": ["r_d2", "r_d3"],
     "C16": ["r_e1", "r_e2", "r_e5", "r_b1", "r_o3", "r_a2", "r_a9", "r_e6"],
     "C17": ["r_c6", "r_a3", "r_c5", "r_a14", "r_a6", "r_a16"],
-    "C18": ["r_a15", "r_a2", "r_a12", "r_a22"],
+    "C18": ["r_a15", "r_a2", "r_a12", "r_a22", "r_a24"],
 }
 
 # build configurations analysed in the quick tier (the thorough tier analyses K1..K6 and diffs the verdict tables):
@@ -54,7 +54,7 @@ CLAUSES = {
     "C04": "every write to BytesMut.{ptr,len,cap} is justified (bounded by the allocation, paired with its companions, bytes moved before the pointer, "
            "non-overlap guard before copy_nonoverlapping); split halves use one cut operand; merge needs all four adjacency conjuncts; Clone never shares; "
            "the reservation helper returns false only on paths without any state write and true only through a justified cap write; request arithmetic cannot wrap; "
-           "the reclaiming paths take the allocation over only behind an Acquire uniqueness test on a count that is kept by atomic read-modify-writes (A2, B1, O3); allocation extents are recomputed by one formula, also through rebuild helpers judged at their callers (A4); the vec-position bits of the data word agree with the pointer (A17); every function that stores to len / cap leaves len <= cap on every path, and every true-returning path of the reservation helper ends with len + n <= cap (entailment over the state at the end of the path: A18, A8 numeric promise); no raw pointer into a buffer is used after a call that may move or free that buffer (A21: reserve / growing Vec calls / drops between obtaining a pointer and writing through it)",
+           "the reclaiming paths take the allocation over only behind an Acquire uniqueness test on a count that is kept by atomic read-modify-writes (A2, B1, O3); allocation extents are recomputed by one formula, also through rebuild helpers judged at their callers (A4); the vec-position bits of the data word agree with the pointer (A17); every function that stores to len / cap leaves len <= cap on every path, and every true-returning path of the reservation helper ends with len + n <= cap (entailment over the state at the end of the path: A18, A8 numeric promise); no raw pointer into a buffer is used after a call that may move or free that buffer (A21: reserve / growing Vec calls / drops between obtaining a pointer and writing through it); one raw extent is assembled from one state of its owner (A23: a current pointer is never paired with a length / capacity / offset read before the owner changed)",
     "C07": "no byte-buffer allocation and no byte copy is reachable from any zero-copy operation (vtable dispatch expanded), apart from verified exempt "
            "edges; clone returns the (ptr, len) it was given; slice/slice_ref re-base by exactly the range start; empty split_off/split_to "
            "results are built at self.ptr + at / self.ptr",
@@ -63,7 +63,8 @@ CLAUSES = {
            "for an empty BytesMut that is alone on its allocation every path of the reservation helper that returns false or reaches an allocation is excluded when "
            "n <= allocation size (A15, linear-inequality domain)",
     "C18": "Structural clauses, not the quantitative bound. (0) Every function that receives &mut BytesMut gets a new byte buffer only through the reservation helper (A22, call graph cut at the helper), "
-           "and inside the helper a sole owner never reaches an exact-size allocation: its own buffer grows through Vec::reserve only (A15 'amortised' mode) - so that the number of allocations cannot grow with the history. (1) A sole owner whose consumed prefix is at least as long as its live bytes (off >= len - the state a recycling "
+           "and inside the helper a sole owner never reaches an exact-size allocation: its own buffer grows through Vec::reserve only (A15 'amortised' mode) - so that the number of allocations cannot grow with the history; "
+           "the crate's own appending paths ask `reserve` for exactly the bytes they then commit (A24: n == k for advance_mut(k), len + n == L for set_len(L)), so a refill of a partly filled buffer never requests room it does not need. (1) A sole owner whose consumed prefix is at least as long as its live bytes (off >= len - the state a recycling "
            "loop is in whenever its buffer runs out after most of it was consumed) and whose allocation can hold len + n reserves without allocating, and try_reclaim(n) is true "
            "(A15 'recycling' mode; a reclaim test that is too strict, or keyed to the wrong quantity, leaves a path to Vec::reserve open, and the buffer then doubles at every exhaustion). "
            "(2) The statement's last sentence: a reserve(n) on an empty handle that is alone on a buffer that is large enough never allocates (and try_reclaim(n) is true) - "
@@ -74,7 +75,9 @@ CLAUSES = {
            "is reachable from the unique Bytes -> BytesMut conversion (A12). The quantitative part (peak heap and allocation counts over 10^3..10^6-round histories) is NOT decided",
     "C03": "on every CFG path of every vtable/drop/conversion/duplication function the handle's reference is disposed exactly once (minted exactly once "
            "for clone); initial counts match the number of handles; consuming slots are called only on ManuallyDrop'd handles; from_owner boxes before "
-           "as_ref, calls it once, unwinds into Drop; handles are merged only when they share one control block; no user code in ManuallyDrop windows",
+           "as_ref, calls it once, unwinds into Drop; handles are merged only when they share one control block; no user code in ManuallyDrop windows; "
+           "what is handed back to the allocator is the allocation itself: base pointer and size are recomputed by one formula at every free / rebuild site (A4) from a "
+           "vec position whose bit field in the data word stays in range (A17) - a buffer freed at a wrong base or with a wrong size is not released",
     "C02": "structural preconditions of the unsafe code: every safe caller establishes the stated precondition of each unsafe helper in release code; "
            "raw slices have an approved (ptr,len) shape; raw writes are bounded by the real destination length; no wrap-around feeds an extent; "
            "refcount overflow aborts; the length of a BytesMut / slice cursor grows only over bytes written just before (every safe set_len / advance_mut is a shrink or is dominated by a covering write at the first unexposed byte, A16); the tagged word in BytesMut.data keeps its bit fields in range and encodes vec position 0 whenever the pointer is the start of its Vec (A17, upper-bound analysis with control-block fields bounded at every constructor)",
